@@ -159,6 +159,14 @@ class C17(F.Spec):
         yield self.topic_case("w-narrow", [(PREFIX + b"/channels/256/set/on", b"1"), (PREFIX + b"/channels/99999/set/on", b"0")])
         yield self.topic_case("w-format", [(PREFIX + b"/channels/-1/set/on", b"1"), (PREFIX + b"/channels/1.5/set/on", b"1")])
         n = 120 if tier == "quick" else 1500
+        # user-name lengths 0..45 with a 16-byte password: the CONNECT remaining length runs through 127/128/129
+        # (the boundary of the one-byte length encoding) whatever the prefix length is
+        for ul in range(0, 46):
+            user, pw = b"u" * ul, b"P" * 16
+            uf, pf = store(user, pw)
+            yield F.Case("connect-len%d" % ul, ["cfg user " + uf.hex(), "cfg pass " + pf.hex(), "cfg flags 1", "start", "connected", "adv 150"],
+                         {"tags": ["connect:auth", "pwlen:1", "sweep"], "kind": "connect", "user": user.hex(), "pw": pw.hex(), "noauth": False,
+                          "uf": uf.hex(), "pf": pf.hex()})
         for i in range(n):
             yield self.gen_connect(rng, i)
         for i in range(n):
